@@ -268,4 +268,7 @@ def run(prop, report, tier, seed):
     report.add(duts_explored=len(rstats), clauses=rinvs + rprops, per_dut=rstats)
     run_tmode(report, prop, tier, seed)
     run_route_tmode(report, prop, tier, seed)
+    if prop == "C04":
+        from . import packetfam
+        packetfam.run_handshake(prop, report, tier, seed)
     report.cov["exhaustive"] = True
